@@ -230,8 +230,11 @@ func main() {
 			needRace = true
 		}
 	}
+	replayIsRace := false
 	if *replay != "" {
-		needRace = false
+		b, _ := os.ReadFile(*replay)
+		replayIsRace = bytes.Contains(b, []byte(`"no-data-race"`))
+		needRace = replayIsRace
 	}
 	build := func(out string, race bool) error {
 		args := []string{"build", "-overlay", filepath.Join(gen, "overlay.json"), "-tags", "verif", "-o", out}
@@ -269,6 +272,11 @@ func main() {
 	if *replay != "" {
 		cmd := exec.Command(workerBin, "-prop", id, "-sites", sitesPath, "-replay", *replay, "-tier", *tier)
 		cmd.Env = workerEnv(1)
+		if replayIsRace {
+			rl := filepath.Join(scratch, "race-replay")
+			cmd = exec.Command(raceBin, "-prop", id, "-sites", sitesPath, "-replay", *replay, "-tier", *tier, "-racelog", rl)
+			cmd.Env = append(os.Environ(), "GOMAXPROCS=4", "GORACE=log_path="+rl+" halt_on_error=0 exitcode=0 history_size=3")
+		}
 		cmd.Stdout, cmd.Stderr = os.Stdout, os.Stderr
 		err := cmd.Run()
 		code := 0
@@ -417,12 +425,17 @@ func main() {
 					evals = 1 << 30
 				}
 				bin, gmp := workerBin, 1
+				args := []string{"-prop", id, "-sites", sitesPath, "-seed", strconv.FormatUint(seed, 10), "-worker", strconv.Itoa(j.w),
+					"-evals", strconv.Itoa(evals), "-secs", fmt.Sprintf("%.1f", explore), "-variant", j.lane.Variant, "-tier", *tier, "-out", out}
+				env := workerEnv(1)
 				if j.lane.Race {
 					bin, gmp = raceBin, 4
+					rl := filepath.Join(scratch, fmt.Sprintf("race-%d", i))
+					args = append(args, "-racelog", rl)
+					env = append(os.Environ(), "GOMAXPROCS="+strconv.Itoa(gmp), "GORACE=log_path="+rl+" halt_on_error=0 exitcode=0 history_size=3")
 				}
-				cmd := exec.Command(bin, "-prop", id, "-sites", sitesPath, "-seed", strconv.FormatUint(seed, 10), "-worker", strconv.Itoa(j.w),
-					"-evals", strconv.Itoa(evals), "-secs", fmt.Sprintf("%.1f", explore), "-variant", j.lane.Variant, "-tier", *tier, "-out", out)
-				cmd.Env = workerEnv(gmp)
+				cmd := exec.Command(bin, args...)
+				cmd.Env = env
 				var eb bytes.Buffer
 				cmd.Stderr = &eb
 				err := cmd.Run()
@@ -443,7 +456,8 @@ func main() {
 	}
 	agg := &workerReport{Faults: map[string]int{}, Probes: map[string]int{}, SiteRuns: map[string]int{}}
 	sigs := map[string]bool{}
-	var failures []json.RawMessage
+	raceUnreproduced := 0
+	var failures, raceFailures []json.RawMessage
 	var hangs []json.RawMessage
 	raceRuns, raceEvals := 0, 0
 	var raceReps []string
@@ -485,7 +499,11 @@ func main() {
 		if len(agg.Samples) < 3 {
 			agg.Samples = append(agg.Samples, r.Samples...)
 		}
-		failures = append(failures, r.Failures...)
+		if r.RaceLane {
+			raceFailures = append(raceFailures, r.Failures...)
+		} else {
+			failures = append(failures, r.Failures...)
+		}
 		if len(r.Hang) > 0 && string(r.Hang) != "null" {
 			hangs = append(hangs, r.Hang)
 		}
@@ -602,13 +620,59 @@ func main() {
 	for _, f := range failures {
 		handle(f, false)
 	}
+	// failures found by the race lane are confirmed, unminimised, by re-executing their choice
+	// vector in a fresh process of the -race build (the race detector reports a race once per
+	// process, so in-process minimisation would lose it)
+	for _, raw := range raceFailures {
+		var fh failureHead
+		if json.Unmarshal(raw, &fh) != nil {
+			continue
+		}
+		key := "race|" + fh.Variant + "|" + fh.V.Oracle + "|" + fh.V.Class
+		if seen[key] || len(seen) >= 16 {
+			continue
+		}
+		seen[key] = true
+		os.MkdirAll(replayDir, 0o755)
+		sum := sha1.Sum([]byte(key))
+		name := fmt.Sprintf("%s-%x.json", sanitize(fh.V.Class), sum[:4])
+		final := filepath.Join(replayDir, name)
+		fpath := filepath.Join(scratch, "fail-"+name)
+		os.WriteFile(fpath, raw, 0o644)
+		// A race report is sound whenever it appears, but whether the detector sees a given race in a
+		// given process also depends on happens-before edges it derives from sync.Pool reuse inside
+		// fmt (per-P, not under the simulator's control): re-execute in up to 4 fresh processes.
+		code := 0
+		var ob bytes.Buffer
+		for attempt := 0; attempt < 4 && code != 1; attempt++ {
+			rl := filepath.Join(scratch, fmt.Sprintf("race-replay-%d-%s", attempt, name))
+			cmd := exec.Command(raceBin, "-prop", id, "-sites", sitesPath, "-replay", fpath, "-tier", *tier, "-racelog", rl)
+			cmd.Env = append(os.Environ(), "GOMAXPROCS=4", "GORACE=log_path="+rl+" halt_on_error=0 exitcode=0 history_size=3")
+			ob.Reset()
+			cmd.Stdout, cmd.Stderr = &ob, &ob
+			err := cmd.Run()
+			code = 0
+			if ee, ok := err.(*exec.ExitError); ok {
+				code = ee.ExitCode()
+			}
+		}
+		if code != 1 {
+			fmt.Printf("race-lane report %s was not reproduced by 4 fresh processes; not reported\n", key)
+			raceUnreproduced++
+			continue
+		}
+		os.WriteFile(final, raw, 0o644)
+		report(&replayHead{Prop: id, Oracle: fh.V.Oracle, Class: fh.V.Class, Message: fh.V.Message}, final)
+	}
 	for _, h := range hangs {
 		handle(h, true)
 	}
 	// race reports
 	raceViol := 0
-	if len(raceReps) > 0 {
-		raceViol = handleRaceReports(id, raceReps, known, knownHits, replayDir, &violations)
+	for _, raw := range raceFailures {
+		if bytes.Contains(raw, []byte(`"no-data-race"`)) {
+			raceViol++
+		}
 	}
 
 	// 6. evidence
@@ -642,7 +706,7 @@ func main() {
 			"unsupported_constructs":   sites.Unsupported,
 			"go_statements":            map[string]int{"rewritten": sites.GoStmts, "late_argument_evaluation": sites.GoApprox},
 			"determinism_selftest":     map[string]any{"processes": detRuns, "evaluations_each": detEvals, "gomaxprocs": []int{1, 4, 16}, "mismatches": detMismatch},
-			"race_lane":                map[string]any{"evaluations": raceEvals, "runs": raceRuns, "reports": len(raceReps), "violations": raceViol},
+			"race_lane":                map[string]any{"evaluations": raceEvals, "runs": raceRuns, "race_violation_classes": raceViol, "reports_not_reproduced_in_fresh_processes": raceUnreproduced, "gomaxprocs": 4},
 			"components": map[string]any{
 				"real": []string{"actionlint (every non-test source of the current /repo tree, import clauses and map ranges rewritten by simgen)", "yaml.v3", "doublestar", "robfig/cron", "go-shellwords", "fatih/color", "regexp", "text/template", "encoding/json"},
 				"stub": []string{"sync (Mutex, RWMutex, WaitGroup, Once)", "x/sync errgroup + semaphore", "os file system + cwd (virtual disk)", "os/exec + x/sys/execabs + shellcheck/pyflakes binaries (tool models)", "path/filepath Abs/Walk", "runtime.NumCPU", "time.Now/Sleep (simulated clock)"},
